@@ -13,6 +13,12 @@ PINNED = [["start_a", "0", "enter"], ["start_p"] + ["9"] * 20 + ["enter"],
           ["start_p", "sp", "c", "h", "r", "h", "l", "c", "j", "g", "k", "sp", "h", "h", "h"],
           ["start_p", "k", "k", "k", "k", "k", "g", "k", "sp", "k", "k"], ["start_a", "j", "j", "j", "j", "j", "j", "sp", "r", "h", "c", "b"],
           ["start_a", "j", "j", "j", "sp", "k", "k", "g", "1", "dot", "k"],
+          # a page is left and come back to while its background load is in flight; then both pages are walked end to end
+          ["gstart_p", "sp", "h", "resync", "j", "j", "k", "k", "k", "k", "k", "k", "l", "j", "j", "k", "k", "k", "k", "k", "k"],
+          # zero-padded and two-digit numbers on an item with twelve links (w2: the root of the long thread)
+          ["start_p", "k", "k", "k", "k", "0", "1", "0", "dot", "h", "0", "8", "dot", "h", "0", "0", "1", "2", "enter"], ["start_p", "k", "k", "k", "k", "1", "0", "enter", "8", "enter", "0", "9", "dot"],
+          # the open command with an empty argument
+          ["start_a", "colon", "open_empty", "enter", "h", "l"], ["start_p", "colon", "open_empty", "sp", "enter", "j"],
           # commands whose argument contains a blank: everything after the first blank is the argument
           ["start_a", "colon", "open_p", "sp", "x", "enter", "h", "l"], ["start_p", "colon", "open_a", "sp", "sp", "enter", "k"], ["start_a", "colon", "feed_f", "sp", "x", "enter", "j"],
           # keys arriving while a background load is in flight (a document it needs is withheld), then the page walked end to end
@@ -72,7 +78,7 @@ def number_sessions(ctx, res):
                                    timeout=3000, allow_fail=True, env={"VERIF_WORLD": world}, name="numbers-" + world)
         if rc != 0:
             raise vlib.Inconclusive("ui harness failed:\n" + txt[-2500:])
-        part = [dict(e, world=world) for e in evs if e["ev"] in ("reset", "key", "hookexit")]
+        part = [dict(e, world=world) for e in evs if e["ev"] in ("reset", "key", "hookexit", "unsettled", "resync")]
         bad, r = vlib.judge(ctx, "T_UI", "T_UI.cfg", [{k: v for k, v in e.items() if k != "world"} for e in part], name="T_UI_numbers_" + world, consts={"World": '"%s"' % world})
         bad_all += [dict(b, line=b["line"] + len(out)) for b in bad]
         out += part
